@@ -206,7 +206,23 @@ func enumGetlineInPrintList(thorough bool, yield func(Case) bool) {
 	}
 }
 
+// hand-written sources that the generators cannot spell: literals that overflow, escaped newlines inside
+// regex and string literals at several nesting depths (the printer re-indents nested statements), odd but accepted forms
+func enumOddSources(thorough bool, yield func(Case) bool) {
+	atoms := []string{"1e999", "-1e999", "1e400 + 1", "x = 1e999 \"\" 1e999", "/a\\\nb/", "$0 ~ /a\\\nb/", "\"a\\\nb\"", "x ~ /^\\\n$/", "/[\\\n]/", "1.5e", "1e+", "010", "0x1A", ".5", "5.", "1e-999", "0.000001", "123456789012345678901234567890",
+		"a[1e999]", "$1e999", "substr(s, 1e999)", "x = -1e999 ^ 2", "/\\//", "\"\\/\"", "/a\\/b\\\nc/", "getline line < \"f\"", "! x", "- - x", "+ + x", "!!x", "x++ + ++y", "a = b ~ c", "$NF--", "$ i++", "$(i)++"}
+	wraps := []string{"BEGIN { y = %s }", "BEGIN { if (1) { y = %s } }", "BEGIN { if (1) { while (0) { if (2) y = %s } } }", "function f(a) { return %s }", "%s { print }", "END { for (;;) { do y = %s; while (0); break } }", "BEGIN { print %s > \"out\" }"}
+	for _, a := range atoms {
+		for _, w := range wraps {
+			if !yield(Case{Src: h.Str(fmt.Sprintf(w, a) + "\n")}) {
+				return
+			}
+		}
+	}
+}
+
 func init() {
+	h.Enum("odd_sources", enumOddSources, run)
 	h.Enum("getline_in_print_list", enumGetlineInPrintList, run)
 	h.Prop("print_reparse_roundtrip", 80000, 1500000, genCase, run)
 	h.Enum("print_argument_shapes", enumPrintShapes, run)
